@@ -1037,7 +1037,9 @@ class StubsStringGenerator:
         return False
 
     def _is_path_connected_to_class(self, path: str, class_path: str) -> bool:
-        if class_path.endswith(path):
+        # The path may lack leading parts, but it ends at a full path segment ("decimal/Decimal" is not
+        # "pkg/bigdecimal/Decimal")
+        if class_path == path or class_path.endswith(f"/{path}"):
             return True
 
         name = path.split("/")[-1]
